@@ -455,8 +455,8 @@ def check_clip(spec, ctx):
 
 
 SUBS = [
-    Sub("intervals_grid", check_grid, strategy=grid_interval_case, quick=60000, thorough=500000, min_nontrivial=0.2),
-    Sub("intervals_free", check_free, strategy=free_interval_case, quick=40000, thorough=300000, min_nontrivial=0.02),
+    Sub("intervals_grid", check_grid, strategy=grid_interval_case, quick=30000, thorough=500000, min_nontrivial=0.2),
+    Sub("intervals_free", check_free, strategy=free_interval_case, quick=24000, thorough=300000, min_nontrivial=0.02),
     Sub("intervals_ulp_boundary", check_ulp, strategy=ulp_boundary_case, quick=12000, thorough=150000, min_nontrivial=0.5),
     Sub("open_ended_intervals", check_open_ended, strategy=open_ended_case, quick=2000, thorough=20000),
     Sub("threshold_errors", check_errors, strategy=error_case, quick=4000, thorough=40000),
